@@ -66,6 +66,11 @@ PROGRAM_PAIRS = [
     ("p(X) :- q(X).\nq(1..3).\nr :- not s.\n", "p(X) :- q(X), X = X.\nq(1). q(2). q(3).\nr :- not s, not not r.\n"),
     ("{p(X)} :- q(X).\n:- p(1), not q(2).\n", "p(X) :- q(X), not not p(X).\n:- p(1), not q(2).\n"),
     ("a :- b.\nb :- c.\n", "a :- c.\nb :- c.\n"),
+    # tasks with very few or no problems in one direction (an empty program has no conjectures to offer)
+    ("p.\n", ""),
+    ("", "p.\n"),
+    ("", ""),
+    ("p :- q.\n", "p :- q.\nq :- p, q.\nr(X) :- p, X = 1..2.\n"),
 ]
 
 
@@ -74,6 +79,9 @@ def prover_exploration(runs, seed):
     rng = random.Random(seed)
     failures, samples = [], []
     n_ok = 0
+    # a --save-problems directory that is re-used by several runs (a larger task first): the files of a run must be
+    # exactly what the prover received in that run, whatever the directory held before
+    shared_save = Path(tempfile.mkdtemp(prefix="c10_save_", dir=str(VERIF / "work")))
     for k in range(runs):
         work = Path(tempfile.mkdtemp(prefix="c10_", dir=str(VERIF / "work")))
         try:
@@ -84,7 +92,9 @@ def prover_exploration(runs, seed):
             if not missing:
                 fake.write_text(FAKE_VAMPIRE)
                 fake.chmod(0o755)
-            left, right = PROGRAM_PAIRS[rng.randrange(len(PROGRAM_PAIRS))]
+            reuse = (k % 5 in (1, 2))
+            # re-used directory: a larger task in run k%5==1, a smaller one right after it
+            left, right = (PROGRAM_PAIRS[0] if k % 5 == 1 else PROGRAM_PAIRS[2]) if reuse else PROGRAM_PAIRS[rng.randrange(len(PROGRAM_PAIRS))]
             (work / "left.lp").write_text(left)
             (work / "right.lp").write_text(right)
             fdir = work / "fake"
@@ -100,19 +110,26 @@ def prover_exploration(runs, seed):
             else:
                 plan = [[rng.choice(KINDS), rng.random() * 0.05] for _ in range(nplan)]
             (fdir / "plan.json").write_text(__import__("json").dumps(plan))
-            save = work / "problems"
-            save.mkdir()
+            save = shared_save if reuse else work / "problems"
+            save.mkdir(exist_ok=True)
+            before = {f.name: f.stat().st_mtime_ns for f in save.glob("*.p")}
             instances = rng.choice([1, 1, 2, 3, 4, 8])
-            decomposition = rng.choice(["independent", "sequential"])
+            decomposition = "sequential" if reuse else rng.choice(["independent", "sequential"])
+            direction = rng.choice(["universal", "universal", "forward", "backward"])
             env = dict(os.environ, PATH=str(bindir) + ":/usr/bin:/bin", FAKE_VAMPIRE_DIR=str(fdir), RUST_BACKTRACE="0")
-            cmd = [str(ANTHEM), "verify", "--equivalence", "strong", "--decomposition", decomposition, "--no-timing",
+            cmd = [str(ANTHEM), "verify", "--equivalence", "strong", "--decomposition", decomposition, "--direction", direction, "--no-timing",
                    "-n", str(instances), "--save-problems", str(save), str(work / "left.lp"), str(work / "right.lp")]
             p = subprocess.run(cmd, stdout=subprocess.PIPE, stderr=subprocess.PIPE, env=env, timeout=300)
             out = p.stdout.decode("utf-8", "replace")
-            saved = sorted(save.glob("*.p"))
+            # the files written by this run (a re-used directory may hold older ones)
+            saved = sorted(f for f in save.glob("*.p") if before.get(f.name) != f.stat().st_mtime_ns)
             nprob = len(saved)
             stdins = sorted(fdir.glob("stdin_*"))
-            case = {"run": k, "instances": instances, "decomposition": decomposition, "plan": plan[:nprob], "missing_executable": missing}
+            case = {"run": k, "instances": instances, "decomposition": decomposition, "direction": direction, "programs": [left, right],
+                    "reused_save_directory": reuse, "plan": plan[:nprob], "missing_executable": missing}
+            if p.returncode != 0 and "panicked at" in p.stderr.decode("utf-8", "replace"):
+                failures.append(dict(case, what="verify panicked", stderr=p.stderr.decode("utf-8", "replace")[-600:]))
+                continue
             success = "> Success!" in out
             failure = "> Failure!" in out
             if missing:
@@ -141,6 +158,7 @@ def prover_exploration(runs, seed):
                     samples.append(f"-n {instances} {decomposition}: outcomes {[x[0] for x in plan[:nprob]]}{' (no vampire in PATH)' if missing else ''} -> {'Success' if success else 'Failure'}")
         finally:
             shutil.rmtree(work, ignore_errors=True)
+    shutil.rmtree(shared_save, ignore_errors=True)
     return {"evaluations": runs, "distinct_nontrivial": n_ok, "samples": samples, "cli_runs": runs, "cli_runs_agreeing": n_ok}, failures
 
 
@@ -251,9 +269,24 @@ def run_cli_case(cmd, work):
         return "timeout", ""
 
 
+def _nest(n, open_, close, core):
+    return open_ * n + core + close * n
+
+
+def _quant_nest(n):
+    s = "p(X1)"
+    for k in range(n, 0, -1):
+        s = f"{'forall' if k % 2 else 'exists'} X{k} ({s})"
+    return s + ".\n"
+
+
 EDGE_TEXTS = {
-    "lp": ["", "% only a comment\n", "p.\n", "p(X) :- q(X).\n", ":- p.\n", "{p(1..3)}.\nq(X) :- p(X), not r.\n"],
-    "spec": ["", "% only a comment\n", "p.\n", "forall X (p(X) <-> q(X)).\n"],
+    "lp": ["", "% only a comment\n", "p.\n", "p(X) :- q(X).\n", ":- p.\n", "{p(1..3)}.\nq(X) :- p(X), not r.\n",
+           "p(" + _nest(60, "(", ")", "1") + ").\n", "p(" + _nest(40, "-(", ")", "X") + ") :- q(X).\n"],
+    "spec": ["", "% only a comment\n", "p.\n", "forall X (p(X) <-> q(X)).\n",
+             # deep nesting (a few hundred bytes): quantifiers, negations, parentheses, arithmetic
+             _quant_nest(30), _nest(40, "not ", "", "p") + ".\n", _nest(60, "(", ")", "p") + ".\n",
+             "p(" + _nest(40, "-(", ")", "1") + ").\n", _nest(25, "forall X (p(X) and ", ")", "q") + ".\n"],
     "ug": ["", "% only a comment\n", "input: q/1.\noutput: p/1.\n", "input: n -> integer.\noutput: p/0.\nassumption: n > 0.\n"],
     "po": ["", "% only a comment\n", "lemma: forall X (p(X) -> p(X)).\n", "inductive-lemma: forall N$i (N$i >= 0 -> N$i >= 0).\n"],
 }
@@ -367,6 +400,64 @@ def crash_exploration(runs, seed):
         shutil.rmtree(work, ignore_errors=True)
     return {"evaluations": runs + edge_runs, "edge_matrix_runs": edge_runs, "distinct_nontrivial": outcomes["ok"] + outcomes["error"], "samples": samples, "outcomes": outcomes,
             "known_crash_classes_seen": known_seen}, failures, known_seen
+
+
+# ------------------------------------------------------------------ C18: a large theory keeps its order
+
+def _ask_driver(requests, timeout=600):
+    drv = VERIF / "lean" / ".lake" / "build" / "bin" / "anthem_model"
+    p = subprocess.run([str(drv)], input="\n".join(requests) + "\n", stdout=subprocess.PIPE, text=True, timeout=timeout)
+    return p.stdout.splitlines()
+
+
+def _chain(n):
+    s = f"p(X{n}$i)"
+    for k in range(n, 1, -1):
+        s = f"exists X{k}$i ((X{k-1}$i = {k-1} -> X{k}$i = {k}) and {s})"
+    return f"exists X1$i (X1$i = 1 and {s})"
+
+
+def simplify_order_check(seed):
+    """`anthem simplify` on theories of 5..200 formulas (the first one expensive): the output is the model's simplification of
+    every formula, in input order. Returns (stats, failures)."""
+    import sexp as sx
+    rng = random.Random(seed)
+    failures, checked = [], 0
+    work = Path(tempfile.mkdtemp(prefix="c18o_", dir=str(VERIF / "work")))
+    try:
+        for m in (5, 63, 64, 65, 130):
+            fs = [_chain(20 + rng.randrange(8))]
+            for k in range(2, m + 1):
+                fs.append(f"exists X (X = {k} and r(X))" if k % 10 == 0 else (f"q({k}) and #true" if k % 7 == 0 else f"q({k})"))
+            text = "".join(f + ".\n" for f in fs)
+            f = work / "big.spec"
+            f.write_text(text)
+            portfolio = rng.choice(["classic", "classic", "ht", "intuitionistic"])
+            p = subprocess.run([str(ANTHEM), "simplify", "--portfolio", portfolio, "--strategy", "fixpoint", str(f)],
+                               stdout=subprocess.PIPE, stderr=subprocess.PIPE, timeout=300)
+            got = p.stdout.decode("utf-8", "replace")
+            a = _ask_driver([sx.dump(["fol_parse", "theory", ("s", text)])])
+            try:
+                parsed = sx.parse(a[0])
+                trees = parsed[1]
+                b = _ask_driver([sx.dump(["simplify", portfolio, "fixpoint", "256", t]) for t in trees])
+                outs = [sx.parse(x)[1] for x in b]
+                c = _ask_driver([sx.dump(["print_formula", t]) for t in outs])
+                expected = "".join(sx.parse(x)[1] + ".\n" for x in c)
+            except Exception as e:
+                failures.append({"what": f"model side failed on a theory of {m} formulas: {e}"})
+                continue
+            checked += 1
+            if p.returncode != 0 or got != expected:
+                gl, el = got.splitlines(), expected.splitlines()
+                first = next((i for i in range(min(len(gl), len(el))) if gl[i] != el[i]), min(len(gl), len(el)))
+                failures.append({"what": f"simplify --portfolio {portfolio} --strategy fixpoint on a theory of {m} formulas: output differs from the model's "
+                                         f"simplification in input order (first difference at line {first + 1})", "input": text[:1500],
+                                 "got_line": gl[first][:300] if first < len(gl) else None, "expected_line": el[first][:300] if first < len(el) else None,
+                                 "rc": p.returncode})
+    finally:
+        shutil.rmtree(work, ignore_errors=True)
+    return {"large_theories_checked": checked}, failures
 
 
 # ------------------------------------------------------------------ C18: determinism across fresh processes
